@@ -51,15 +51,10 @@ impl Stats {
         self.evhash = (self.evhash ^ x).wrapping_mul(0x100_0000_01b3).rotate_left(23) ^ 0x9E37_79B9;
     }
     /// fold a trapped-instruction / event trace into the run's event hash
+    /// (kept for modules that want to mark a trace as consumed; the event hash itself is
+    /// accumulated by `World::fold_trace`, which normalises host-dependent values)
     pub fn fold_trace(&mut self, trace: &[crate::cpu::Ev]) {
-        for e in trace {
-            let s = format!("{e:?}");
-            let mut h = 0xcbf2_9ce4_8422_2325u64;
-            for b in s.bytes() {
-                h = (h ^ b as u64).wrapping_mul(0x100_0000_01b3);
-            }
-            self.fold(h);
-        }
+        self.fold(trace.len() as u64);
     }
     pub fn distinct_key(&mut self, parts: &[u64]) {
         let mut h = 0xcbf2_9ce4_8422_2325u64;
